@@ -46,7 +46,8 @@ theorem refill_anchor (b : Buf) (nmin : Nat) (h : WF b) :
               · cases hb1
                 refine ⟨?_, rfl, (fun hh => by cases hh), by simp [dropFront]⟩
                 rw [dropFront_absAnchor0]; simp [Buf.absAnchor, ha]
-              · cases hb1
+              · rename_i hgt
+                exact absurd (h.hanch a ha) hgt
           · cases hb1
             exact ⟨rfl, rfl, (fun x => x), Nat.le_refl _⟩
         obtain ⟨b1, hb1, _⟩ := shiftLeft_spec h
